@@ -9,6 +9,7 @@ content of a leaf (`kexp`, the kernel expansion `Σ_i α_i k(x, c_i)`) is tied t
 correspondence; the kernel formulas themselves are C05.
 -/
 import Xrfmv.Lemmas.HardRoute
+import Xrfmv.Gen.Chunks
 
 namespace Xrfmv.Props.C01
 open Xrfmv.HardRoute Xrfmv.Gen.Route
@@ -55,6 +56,30 @@ provided the chunk function acts row by row (C05 `row_local`). -/
 theorem internal_batch_size_irrelevant (bs : Nat) (hbs : 1 ≤ bs) (f : X → Y) (xs : List X) :
     batched bs (List.map f) xs = xs.map f :=
   batched_eq_map bs hbs f xs
+
+/-- **C01 (every internal blocked loop, over the regenerated source)**  Every loop of the form
+`for i in range(start, stop, step): … T[i : i + w] …` in `kernels.py`, `recursive_feature_machine.py` and `xrfm.py` (the batches
+of `RFM.predict`, the row blocks of the product kernel, the row blocks of all categorical fast paths; inventory `Gen.Chunks`,
+regenerated on every run) starts at 0, runs to the leading dimension of a tensor, and takes slices exactly as wide as its step. -/
+theorem chunk_loops_are_tilings :
+    Xrfmv.Gen.Chunks.loops.all (fun l => l.startZero && l.stopIsLeadingDim && l.widthEqStep && l.lowerIsLoopVar) = true := by
+  decide
+
+/-- … and such a loop — any length, any block size `≥ 1` — computes exactly the row-wise map: no row is dropped, none is
+evaluated twice, and the value of a row does not depend on the block it falls in. -/
+theorem tiling_is_rowwise (bs : Nat) (hbs : 1 ≤ bs) (f : X → Y) (xs : List X) :
+    chunked bs bs (List.map f) xs = xs.map f :=
+  batched_eq_map bs hbs f xs
+
+/-- The two conditions are needed: slices narrower than the step drop rows (what a loop that strides by `2·bs` but slices `bs`
+rows does), slices wider than the step evaluate rows twice. -/
+theorem narrow_or_wide_blocks_are_not_rowwise :
+    chunked 2 1 (List.map id) [0, 1, 2, 3] ≠ [0, 1, 2, 3] ∧ chunked 1 2 (List.map id) [0, 1, 2] ≠ [0, 1, 2] := by
+  decide
+
+-- non-vacuity: the inventory is not empty and contains the batch loop of `RFM.predict`
+example : Xrfmv.Gen.Chunks.loops.any (fun l => l.func == "RFM.predict") = true ∧ 2 ≤ Xrfmv.Gen.Chunks.loops.length := by
+  decide
 
 /-- **C01 (ensemble)** Stacking the per-tree outputs and averaging over trees position by position is the row-wise
 average of the per-tree leaf formulas, so batch independence carries over to the ensemble (`avg` = mean over trees,
